@@ -602,6 +602,12 @@ def binop(E, op, a, b, inplace=False):
         return a + b
     if isinstance(a, SFlt) or isinstance(b, SFlt) or isinstance(a, float) or isinstance(b, float):
         # integer-term times float constant (nanosecond conversions); anything else is outside the model
+        for x in (a, b):
+            if isinstance(x, SInt) and op in (ast.Mult, ast.Div, ast.FloorDiv, ast.Add, ast.Sub):
+                # CPython converts the int operand to a double first: OverflowError beyond the double range
+                lim = z3.IntVal((1 << 1024) - (1 << 970))
+                if E.branch(z3.Or(x.t >= lim, x.t <= -lim)):
+                    E.raise_(OverflowError, "int too large to convert to float", implicit="int2float")
         if op is ast.Mult and isinstance(a, (SInt, SFlt)) and isinstance(b, float):
             return SFlt(a.t, (a.scale if isinstance(a, SFlt) else 1.0) * b)
         if op is ast.Mult and isinstance(b, (SInt, SFlt)) and isinstance(a, float):
@@ -635,6 +641,12 @@ def str_of(E, v):
     if isinstance(v, (SObj, SRef)):
         s = inspect.getattr_static(v.cls, "__str__", None)
         if isinstance(s, types.FunctionType):
+            if isinstance(v, SRef):
+                from .interp import qualname
+                if qualname(s) not in E.summaries:
+                    # symbolic-identity objects carry only the attributes of the contract's schema: their text is opaque
+                    E.used_models.add("str(symbolic-identity %s): __str__ assumed pure and total" % v.cls.__name__)
+                    return FmtStr("obj", (v,))
             return E.call(s, [v])
         return FmtStr("<obj>", ())
     if isinstance(v, SOpt):
@@ -1225,6 +1237,8 @@ def ctx_exit(E, cm):
 def sref_get(E, ref, name):
     kind = ref.schema[name]
     arr = E.sheap.get(name)
+    if arr is None and kind in ("int", "bool") and name in getattr(E, "lazy_attrs", ()):
+        arr = E.sheap[name] = z3.Array(E.fresh("lazy_" + name), z3.IntSort(), z3.BoolSort() if kind == "bool" else z3.IntSort())
     if arr is None:
         raise Unsupported("attribute array %s not initialised" % name)
     if callable(kind):
@@ -1241,6 +1255,8 @@ def sref_get(E, ref, name):
 
 def sref_set(E, ref, name, v):
     kind = ref.schema[name]
+    if name not in E.sheap and kind in ("int", "bool") and name in getattr(E, "lazy_attrs", ()):
+        E.sheap[name] = z3.Array(E.fresh("lazy_" + name), z3.IntSort(), z3.BoolSort() if kind == "bool" else z3.IntSort())
     if callable(kind):
         return kind(E, ref, "set", v)
     E.ghost.setdefault("writes", []).append((name, ref.idt))
@@ -1741,6 +1757,27 @@ def m_lock(E):
 
 @register(time.sleep)
 def m_sleep(E, t):
+    """time.sleep(t): ValueError for a negative length, OverflowError beyond the platform's time_t range (int64 nanoseconds); the
+    thresholds on the integer term are exact up to one unit of the float rounding"""
+    import math
+    if isinstance(t, SFlt) and t.scale > 0:
+        if E.branch(t.t < 0):
+            E.raise_(ValueError, "sleep length must be non-negative", implicit="sleep")
+        lim = int(math.ceil(9223372036.854775807 / t.scale))
+        if E.branch(t.t >= lim):
+            E.raise_(OverflowError, "timestamp out of range for platform time_t", implicit="sleep")
+    elif isinstance(t, (int, float)):
+        if t < 0:
+            E.raise_(ValueError, "sleep length must be non-negative", implicit="sleep")
+        if t >= 9223372036.854775807:
+            E.raise_(OverflowError, "timestamp out of range for platform time_t", implicit="sleep")
+    elif isinstance(t, SInt):
+        if E.branch(t.t < 0):
+            E.raise_(ValueError, "sleep length must be non-negative", implicit="sleep")
+        if E.branch(t.t >= 9223372037):
+            E.raise_(OverflowError, "timestamp out of range for platform time_t", implicit="sleep")
+    else:
+        raise Unsupported("time.sleep(%r)" % (t,))
     E.ghost.setdefault("sleep", []).append(t)
     return None
 
